@@ -39,8 +39,12 @@ def storage_items(txt):
     return split_items(m.group(1)) if m else None
 
 
+QSTR = re.compile(r'"(?:[^"\\]|\\.)*"')
+
+
 def ints(txt):
-    return [x for x in NUM.findall(txt)]
+    # quoted strings are compared exactly by the model correspondence; digits inside them are not operands
+    return [x for x in NUM.findall(QSTR.sub('""', txt))]
 
 
 class SubsetGen:
@@ -234,7 +238,7 @@ def operand_atoms(t):
         if tok[0] in "RCMLXQ":
             out.append(str(int(tok[1:], 16)))
         elif tok[0] == "S":
-            out += NUM.findall(bytes.fromhex(tok[1:]).decode("utf-8", "replace")) if tok[1:] != "-" else []
+            pass
     return out
 
 
